@@ -70,8 +70,8 @@ def who_may_write(ctx, rep, rule: str, only_kinds: set[str] | None = None, inclu
     repo = ctx.repo
     pts = ctx.engine("pts")
     kinds = pts.state_kinds()
-    for k, (w, _) in STATE_WRITERS.items():
-        repo.func(w)  # anchors must exist
+    # anchors must exist; a writer that moved (module level <-> class, base class, other module) is still that writer
+    writers_now = {k: (repo.func(w).qual, why) for k, (w, why) in STATE_WRITERS.items()}
     per_writer: dict[str, int] = defaultdict(int)
     dist_base = repo.cls(f"{DIST_MOD}:DistributorInterface")
     update_params = {m.qual for c in repo.subclasses(dist_base) for n, m in c.methods.items() if n == "update_params" and not m.is_abstract}
@@ -95,10 +95,10 @@ def who_may_write(ctx, rep, rule: str, only_kinds: set[str] | None = None, inclu
                 why = "parameters may only be written by a Distributor.update_params"
                 if ok:
                     per_writer["PARAM:" + w.func] += 1
-            elif k in STATE_WRITERS:
-                des = STATE_WRITERS[k][0]
+            elif k in writers_now:
+                des = writers_now[k][0]
                 ok = on_load or callgraph_dominated(pts, w.func, des, ENTRY_POINTS)
-                why = f"state '{k}' ({STATE_WRITERS[k][1]}) may only be written by {short(des)} or on the checkpoint-load path"
+                why = f"state '{k}' ({writers_now[k][1]}) may only be written by {short(des)} or on the checkpoint-load path"
                 if ok and not on_load:
                     per_writer[k] += 1
             else:
@@ -112,7 +112,7 @@ def who_may_write(ctx, rep, rule: str, only_kinds: set[str] | None = None, inclu
                 f"in-place `{w.op}` in {short(w.func)} may write storage of kind {k} ({ast.unparse(w.node)[:90]}); {why}",
                 sample=(n_sites % 9 == 0),
             )
-    for k, (wq, _) in STATE_WRITERS.items():
+    for k, (wq, _) in writers_now.items():
         if only_kinds is None or k in only_kinds:
             rep.floor(rule, f"{short(wq)} writes {k}", per_writer.get(k, 0), 1)
     if include_params:
